@@ -91,15 +91,20 @@ def run_check(prop, tier, seed, jobs):
         if specs:
             k = seed % len(specs)
             specs = specs[k:] + specs[:k]
+        global DISTINCT_BY_SCENARIO
+        DISTINCT_BY_SCENARIO = bool(getattr(mod, 'DISTINCT_BY_SCENARIO', False))
         agg = explore_all(prop, specs, jobs)
     agg['wall'] = time.time() - t0
     return finish(prop, tier, seed, mod, agg, known_what)
 
 
+DISTINCT_BY_SCENARIO = False
+
+
 def explore_all(prop, specs, jobs):
     agg = dict(scenarios=len(specs), executions=0, points=0, transitions=0, traces=set(), triggered=0, verdicts={},
                violations=[], n_violations=0, errors=[], known={}, capped=[], families={}, samples=[], collapsed=0,
-               min_completed_level=None, levels={}, orders=set())
+               min_completed_level=None, levels={}, orders=set(), clauses={})
     ctx = mp.get_context('fork')
     with ctx.Pool(jobs, initializer=_init_worker, initargs=(prop,)) as pool:
         by_id = {s['id']: s for s in specs}
@@ -109,7 +114,7 @@ def explore_all(prop, specs, jobs):
             fam['scenarios'] += 1
             fam['executions'] += summ['executions']
             fam['triggered'] += summ['triggered']
-            fam['distinct'].update(summ['traces'])
+            fam['distinct'].update((summ['id'], t) if DISTINCT_BY_SCENARIO else t for t in summ['traces'])
             fam['violations'] += summ['n_violations']
             cl = summ['completed_level']
             fam['completed_level'] = cl if fam['completed_level'] is None else min(fam['completed_level'], cl)
@@ -122,13 +127,15 @@ def explore_all(prop, specs, jobs):
             agg['points'] += summ['points']
             agg['transitions'] += summ['transitions']
             agg['collapsed'] += summ['collapsed']
-            agg['traces'].update((summ['family'], t) for t in summ['traces'])
+            agg['traces'].update((summ['id'] if DISTINCT_BY_SCENARIO else summ['family'], t) for t in summ['traces'])
             agg['triggered'] += summ['triggered']
             for k, n in summ['verdicts'].items():
                 agg['verdicts'][k] = agg['verdicts'].get(k, 0) + n
             for i, n in enumerate(summ['levels']):
                 agg['levels'][i] = agg['levels'].get(i, 0) + n
             agg['errors'] += summ['errors']
+            for c, n in summ['clauses'].items():
+                agg['clauses'][c] = agg['clauses'].get(c, 0) + n
             agg['n_violations'] += summ['n_violations']
             for v in summ['violations']:
                 agg['violations'].append((by_id[summ['id']], v))
@@ -215,7 +222,7 @@ def finish(prop, tier, seed, mod, agg, known_what):
         for path, spec, v in replay_paths:
             print(f'VIOLATION property={prop} replay={path}')
             print(f'   family={spec["family"]} scenario={spec["id"]} clause={v["clause"]} tags={v["tags"]} level={v["level"]}\n   {str(v["detail"])[:300]}')
-        print(f'[{prop}] {agg["n_violations"]} violating executions')
+        print(f'[{prop}] {agg["n_violations"]} violating executions; by clause: {agg.get("clauses")}')
         return 1
     if agg['n_violations']:
         print(f'VIOLATION property={prop} replay=none')
